@@ -65,8 +65,9 @@ def tokenize(src):
 # pat:  ("some", name) ("none",) ("path", [segs]) ("wild",)
 
 class Parser:
-    def __init__(self, toks, only=None):
+    def __init__(self, toks, only=None, tymap=None):
         self.t, self.i = toks, 0
+        self.tymap = tymap or {}   # per-file renaming of (generic) type names
         self.only = only   # names of the functions whose bodies are parsed (None = all)
 
     def peek(self, k=0):
@@ -138,11 +139,14 @@ class Parser:
                 res.append(self.fn(impl_of))
             elif v == "impl":
                 self.i += 1
-                # impl [<..>] [Trait [<..>] for] Type { items }
+                # impl [<..>] [Trait [<..>] for] Type [where ..] { items }
+                if self.at("<"):
+                    self.skip_generics()
                 name1 = self.type_()
                 ty, trait = name1, None
                 if self.opt("for"):
                     trait, ty = name1, self.type_()
+                self.skip_where()
                 self.eat("{")
                 inner = self.items(impl_of=(ty, trait))
                 self.eat("}")
@@ -236,7 +240,23 @@ class Parser:
                 args.append(self.type_arg())
             self.eat(">")
             return f"{name}<{','.join(args)}>"
-        return name
+        return self.tymap.get(name, name)
+
+    def skip_generics(self):
+        d = 0
+        while True:
+            if self.at("<"):
+                d += 1
+            elif self.at(">"):
+                d -= 1
+            self.i += 1
+            if d == 0:
+                break
+
+    def skip_where(self):
+        if self.at("where"):
+            while not self.at("{"):
+                self.i += 1
 
     def fn(self, impl_of):
         self.eat("fn")
@@ -252,6 +272,8 @@ class Parser:
                     self.i += 1
                     if d == 0:
                         break
+            elif self.tymap:
+                self.skip_generics()
             else:
                 raise Unsupported(f"generic function {name}")
         self.eat("(")
@@ -278,6 +300,7 @@ class Parser:
         ret = "()"
         if self.opt("->"):
             ret = self.type_()
+        self.skip_where()
         if self.only is not None and name not in self.only:
             # not translated: skip the body
             self.eat("{")
@@ -328,6 +351,14 @@ class Parser:
                 c = self.expr(no_struct=True)
                 b = self.block()
                 stmts.append(("while", c, b))
+                continue
+            if self.at("for"):
+                self.i += 1
+                v = self.ident()
+                self.eat("in")
+                c = self.expr(no_struct=True)
+                b = self.block()
+                stmts.append(("for", v, c, b))
                 continue
             e = self.expr()
             if self.at("=") or self.peek()[1] in ("+=", "-=", "*=", "/=", ">>=", "<<=", "|=", "&=", "^=", "%="):
@@ -540,7 +571,7 @@ INT_TYPES = {"i128": "I128", "I256": "I256"}
 SMALL = {"u32", "u8", "i32", "usize", "u64"}
 NATTY = {"u32", "u8", "usize", "u64", "u128"}
 BITS = {"u8": 8, "u32": 32, "u64": 64, "usize": 64, "u128": 128}
-OPAQUE = {"Env", "CheckpointType"}   # parameters of these types are keys / handles: dropped
+OPAQUE = {"Env", "CheckpointType", "Hasher!"}   # parameters of these types are keys / handles: dropped
 
 
 def as_nat(l, t):
@@ -586,6 +617,10 @@ class Gen:
             return "Unit"
         if ty in getattr(self, "enums", {}) or ty in getattr(self, "structs", {}):
             return ty
+        if ty == "Bytes32":
+            return "B32"
+        if ty.startswith("Vec<"):
+            return f"(List {self.lean_ty(ty[4:-1])})"
         if ty.startswith("BytesN<"):
             return "Nat"     # an opaque identifier, only passed through
         if ty == "bool":
@@ -614,6 +649,14 @@ class Gen:
             r, rt = self.pure(e[3], env)
             if lt == rt and lt in getattr(self, "enums", {}) and e[1] in ("==", "!="):
                 return f"({l} {'=' if e[1] == '==' else '≠'} {r})"
+            if lt == rt == "Bytes32":
+                if e[1] in ("==", "!="):
+                    return f"({l} {'=' if e[1] == '==' else '≠'} {r})"
+                if e[1] == ">" and "gt" in getattr(self, "reads", {}):
+                    # the byte-string order (`PartialOrd` of BytesN): a function of the reads record
+                    self.uses_reads = True
+                    return f"(envr.gt {l} {r} = true)"
+                raise Unsupported(f"comparison {e[1]} of byte strings")
             if not (is_int(lt) and is_int(rt)):
                 raise Unsupported(f"comparison of {lt} and {rt}")
             if lt in NATTY or rt in NATTY:
@@ -624,6 +667,11 @@ class Gen:
             return f"({l} {op} {r})"
         if e[0] == "un" and e[1] == "!":
             return f"(¬ {self.cond(e[2], env)})"
+        if e[0] == "mcall" and e[2] == "is_multiple_of" and len(e[3]) == 1:
+            l, lt = self.pure(e[1], env)
+            a_ = self.strip(e[3][0])
+            if lt in NATTY and a_[0] == "num" and int(str(a_[1]).replace("_", ""), 0) > 0:
+                return f"({l} % {as_nat(*self.pure(a_, env))} = 0)"
         raise Unsupported(f"condition {e[0]}")
 
     # --- branching on a condition whose operands may panic (short-circuit semantics kept)
@@ -819,6 +867,8 @@ class Gen:
             bits = BITS[rt]
             al, at_ = self.pure(args[0], env)
             return (f"(uN_{name} {bits} {rl} {as_nat(al, at_)})", rt)
+        if rt.startswith("Vec<") and name == "len" and not args:
+            return (f"(List.length {rl})", "u32")
         if rt in NATTY and name == "div_ceil" and len(args) == 1:
             a_ = self.strip(args[0])
             if not (a_[0] == "num" and int(str(a_[1]).replace("_", ""), 0) > 0):
@@ -841,7 +891,7 @@ class Gen:
         return None
 
     # --- general expressions
-    COMP_BIN = {"/": "div", "*": "mul", "+": "add", "-": "sub", "%": "rem"}
+    COMP_BIN = {"/": "div", "*": "mul", "+": "add", "-": "sub", "%": "rem", "<<": "shl"}
     COMP_M256 = {"mul": "i256_mul", "div": "i256_div", "add": "i256_add", "sub": "i256_sub", "rem_euclid": "i256_rem_euclid"}
 
     def tr(self, e, env, k, ret):
@@ -897,6 +947,12 @@ class Gen:
                     ty = at if at != "int" else bt
                     if ty in ("int", "Wad"):
                         ty = "i128"
+                    if e[1] == "<<":
+                        if not (bt in NATTY and (at in NATTY or at == "int")):
+                            raise Unsupported(f"shift of {at} by {bt}")
+                        v = self.fresh()
+                        # an untyped literal on the left takes the type of the comparison it stands in: u32 here
+                        return f"(Comp.bind (uN_shl {BITS[at] if at in NATTY else 32} {as_nat(a, at)} {b}) fun {v} =>\n {k(v, at if at in NATTY else 'u32')})"
                     if ty in NATTY and e[1] in ("+", "-", "*"):
                         bits = BITS[ty]
                         v = self.fresh()
@@ -971,8 +1027,7 @@ class Gen:
                 _, atys, rty_ = self.reads[f[1]]
                 comp_args = []
                 for a in e[2]:
-                    a_ = self.strip(a)
-                    if a_[0] == "var" and (a_[1] in ("e", "_e") or (a_[1] in self.param_names and a_[1] not in env)):
+                    if self.is_handle(a, env):
                         continue
                     comp_args.append(a)
                 if len(comp_args) != len(atys):
@@ -1040,6 +1095,14 @@ class Gen:
             return self.tr(recv, env, kr, ret)
         raise Unsupported(f"expression kind {kind}: {pure_err}")
 
+    def is_handle(self, a, env):
+        """an argument that carries no data of the model: the environment, a parameter of an opaque type,
+        a freshly constructed hasher `H::new(e)`"""
+        a = self.strip(a)
+        if a[0] == "var" and (a[1] in ("e", "_e") or (a[1] in self.param_names and a[1] not in env)):
+            return True
+        return a[0] == "call" and a[1][0] == "path" and a[1][1][-1] == "new" and all(self.strip(x) in (("var", "e"), ("var", "_e")) for x in a[2])
+
     def call_fn(self, ns, name, recv, args, env, k, ret):
         ptys, rty = self.sigs[(ns, name)]
         # drop Env arguments
@@ -1058,7 +1121,7 @@ class Gen:
                 v = self.fresh()
                 return f"(Comp.bind ({ns}.{name} {' '.join(al)}) fun {v} =>\n {k(v, rty)})"
             a = self.strip(real[i])
-            if a in (("var", "e"), ("var", "_e")) or (a[0] == "call" and a[1] == ("path", ["Env", "default"])):
+            if a in (("var", "e"), ("var", "_e")) or (a[0] == "call" and a[1] == ("path", ["Env", "default"])) or self.is_handle(a, env):
                 atoms.append(None)
                 return go(i + 1)
 
@@ -1077,6 +1140,8 @@ class Gen:
                 acc.add(lhs[1])
             elif st[0] == "while":
                 self.assigned_vars(self.as_stmts(st[2])[1], acc)
+            elif st[0] == "for":
+                self.assigned_vars(self.as_stmts(st[3])[1], acc)
             elif st[0] == "expr" and self.strip(st[1])[0] == "if":
                 e = self.strip(st[1])
                 if e[2][0] == "block":
@@ -1117,12 +1182,19 @@ class Gen:
                 name, (old, oty) = lhs[1], env[lhs[1]]
                 if s[2] == "=":
                     return self.tr(s[3], env, lambda a, t: go(i + 1, dict(env, **{name: (a, oty if t == "int" else t)})), ret)
+                if s[2] == "/=" and oty in NATTY:
+                    a_ = self.strip(s[3])
+                    if not (a_[0] == "num" and int(str(a_[1]).replace("_", ""), 0) > 0):
+                        raise Unsupported("/= by a non-literal")
+                    return go(i + 1, dict(env, **{name: (f"({old} / {as_nat(*self.pure(a_, env))})", oty)}))
                 if s[2] in (">>=", "&="):
                     l, t = self.pure(("bin", s[2][:-1], s[1], s[3]), env)
                     return go(i + 1, dict(env, **{name: (l, oty)}))
                 raise Unsupported(f"compound assignment {s[2]}")
             if s[0] == "while":
                 return self.tr_while(s, env, lambda env2: go(i + 1, env2), ret)
+            if s[0] == "for":
+                return self.tr_for(s, env, lambda env2: go(i + 1, env2), ret)
             if s[0] == "expr":
                 e = self.strip(s[1])
                 if e[0] == "if":
@@ -1193,6 +1265,45 @@ class Gen:
             return f"(Comp.bind ({name} {fu} {' '.join(env[v][0] for v in params)}) fun {st} =>\n {k_after(env2)})"
         return (f"(Comp.bind ({name} {fu} {' '.join(env[v][0] for v in params)}) fun {r} =>\n"
                 f" (Comp.tryOpt {r} fun {st} =>\n {k_after(env2)}))")
+
+    def tr_for(self, s, env, k_after, ret):
+        """`for x in v { body }` over a `Vec<T>` value: an auxiliary definition by STRUCTURAL recursion on the
+        list (no fuel), returning the loop-carried variables"""
+        _, var, coll, body = s
+        body = self.as_stmts(body)
+        if body[2] is not None:
+            raise Unsupported("for body with a value")
+        cl, ct = self.pure(coll, env)
+        if not ct.startswith("Vec<"):
+            raise Unsupported(f"for over {ct}")
+        elt = ct[4:-1]
+        muts = sorted(self.assigned_vars(body[1], set()))
+        for m in muts:
+            if m not in env:
+                raise Unsupported(f"loop assigns unknown variable {m}")
+        if not muts:
+            raise Unsupported("for loop without loop-carried variables")
+        others = [v for v in sorted(env) if v not in muts and not v.startswith("$")]
+        self.loops += 1
+        name = f"{self.cur_ns}.{self.cur_fn}.loop{self.loops}"
+        params = muts + others
+        penv = {v: (v + "_", env[v][1]) for v in params}
+        plist = " ".join(f"({penv[v][0]} : {self.lean_ty(env[v][1])})" for v in params)
+        rty = " × ".join(self.lean_ty(env[m][1]) for m in muts)
+        tup = lambda en: "(" + ", ".join(en[m][0] for m in muts) + ")"
+        rd = self.cur_ns in getattr(self, "reads_ns", set())
+        ev = " envr" if rd else ""
+        again = lambda en: f"{name}{ev} rest_ {' '.join(en[v][0] for v in params)}"
+        benv = dict(penv, **{var: (var + "_", elt)})
+        code = self.tr_stmts(body[1], benv, again, ret)
+        self.aux.append(f"def {name} {'(envr : ' + self.cur_ns + '.Reads) ' if rd else ''}(xs_ : List {self.lean_ty(elt)}) {plist} : Comp ({rty}) :=\n"
+                        f" match xs_ with\n | [] => Comp.ok {tup(penv)}\n | {var}_ :: rest_ =>\n {code}\n")
+        st = self.fresh("st")
+        env2 = dict(env)
+        for jx, m in enumerate(muts):
+            proj = st if len(muts) == 1 else st + "".join(".2" for _ in range(jx)) + (".1" if jx < len(muts) - 1 else "")
+            env2[m] = (proj, env[m][1])
+        return f"(Comp.bind ({name}{ev} {cl} {' '.join(env[v][0] for v in params)}) fun {st} =>\n {k_after(env2)})"
 
     def tr_block(self, b, env, k, ret):
         if b[0] != "block":
@@ -1267,6 +1378,11 @@ FILES_CAP = [
 READS_VOTES = {"Votes": {"get_checkpoint": ("fn", ["u32"], "Checkpoint")}}
 STRUCTS_VOTES = {"Checkpoint": [("ledger", "u32"), ("votes", "u128")]}
 FILES_VOTES = [("Votes", "packages/governance/src/votes/storage.rs", ["lookup_checkpoint_at"])]
+READS_MERKLE = {"Merkle": {"hash_pair": ("fn", ["Bytes32", "Bytes32"], "Bytes32"), "gt": "fn2bool"}}
+FILES_MERKLE = [("Merkle", "packages/contract-utils/src/crypto/hashable.rs", ["commutative_hash_pair"]),
+                ("Merkle", "packages/contract-utils/src/crypto/merkle.rs", ["verify", "verify_with_index"])]
+TYMAPS_MERKLE = {"packages/contract-utils/src/crypto/hashable.rs": {"H": "Bytes32", "S": "Hasher!", "Output": "Bytes32"},
+                 "packages/contract-utils/src/crypto/merkle.rs": {"H": "Hasher!"}}
 READS_CAP = {"Capped": {"get_Cap": "Option<i128>", "get_TotalSupply": "Option<i128>"}}
 
 FILES_WEBAUTHN = [
@@ -1298,7 +1414,7 @@ def deps(e, acc):
             deps(x, acc)
 
 
-def translate(repo, FILES=FILES, DEPS=(), imports=("OZ.Model.RustSem",), reads=None, structs=None):
+def translate(repo, FILES=FILES, DEPS=(), imports=("OZ.Model.RustSem",), reads=None, structs=None, tymaps=None):
     """DEPS: files translated elsewhere whose signatures are needed (parsed, not emitted);
     reads: {namespace: {getter name: Rust type}} — the side-effect-free state getters (`Self::name(e)`)
     that become fields of the record `<namespace>.Reads` passed to every function of that namespace"""
@@ -1310,7 +1426,7 @@ def translate(repo, FILES=FILES, DEPS=(), imports=("OZ.Model.RustSem",), reads=N
     emit_ns = {ns for ns, _, _ in FILES}
     for ns, rel, only in list(DEPS) + list(FILES):
         src = open(os.path.join(repo, rel)).read()
-        items = Parser(tokenize(src), set(only) if only is not None else None).items()
+        items = Parser(tokenize(src), set(only) if only is not None else None, tymap=(tymaps or {}).get(rel)).items()
         fns = []
         for it in items:
             if it[0] == "const":
@@ -1369,6 +1485,9 @@ def translate(repo, FILES=FILES, DEPS=(), imports=("OZ.Model.RustSem",), reads=N
                 out.append(f"structure {sn} where\n" + "\n".join(f"  {fn_} : {g0.lean_ty(ft)}" for fn_, ft in flds) + "\n  deriving DecidableEq, Repr\n")
             out.append(f"/-- the state getters the translated functions read (`Self::name(e)`), as values -/\nstructure {ns}.Reads where")
             for rn, rt in reads[ns].items():
+                if rt == "fn2bool":
+                    out.append(f"  {rn} : B32 → B32 → Bool")
+                    continue
                 if isinstance(rt, tuple):
                     out.append(f"  {rn} : {' → '.join(g0.lean_ty(t_) for t_ in rt[1])} → Comp {g0.lean_ty(rt[2])}")
                     continue
@@ -1686,7 +1805,9 @@ def main():
                 sys.stdout.write(txt)
         sys.exit(rc)
     try:
-        if "--votes" in sys.argv:
+        if "--merkle" in sys.argv:
+            txt = translate(repo, FILES_MERKLE, reads=READS_MERKLE, tymaps=TYMAPS_MERKLE)
+        elif "--votes" in sys.argv:
             txt = translate(repo, FILES_VOTES, reads=READS_VOTES, structs=STRUCTS_VOTES)
         elif "--cap" in sys.argv:
             txt = translate(repo, FILES_CAP, reads=READS_CAP)
